@@ -522,7 +522,7 @@ func runRequest(s reqScenario) core.Result {
 		if exp.notJudged {
 			r.Class = "not-judged(raw text offered to map/struct)"
 		}
-		for _, entry := range []string{"BinaryConv.Do", "HTTPConv.Do", "BinaryConv.Do,request-served-another-query-before"} {
+		for _, entry := range []string{"BinaryConv.Do", "HTTPConv.Do", "BinaryConv.Do,request-served-another-query-before", "BinaryConv.Do,options-by-SetOptions"} {
 			req, _, err := s.request()
 			if err != nil {
 				r.Add("harness|request|build-error", "%s: %v", s, err)
@@ -532,11 +532,18 @@ func runRequest(s reqScenario) core.Result {
 			ctx := context.WithValue(context.Background(), conv.CtxKeyHTTPRequest, req)
 			if strings.HasPrefix(entry, "BinaryConv.Do") {
 				cv := j2t.NewBinaryConv(s.convOpts())
+				if strings.HasSuffix(entry, "SetOptions") {
+					// built with the complementary options, switched by SetOptions
+					o := s.convOpts()
+					cv = j2t.NewBinaryConv(conv.Options{EnableHttpMapping: false, ReadHttpValueFallback: !o.ReadHttpValueFallback, TracebackRequredOrRootFields: !o.TracebackRequredOrRootFields,
+						WriteRequireField: !o.WriteRequireField, WriteDefaultField: !o.WriteDefaultField, WriteOptionalField: !o.WriteOptionalField, NoBase64Binary: !o.NoBase64Binary})
+					cv.SetOptions(o)
+				}
 				doc := body
 				if s.bodyKind == "form" {
 					doc = nil
 				}
-				if entry != "BinaryConv.Do" {
+				if strings.HasSuffix(entry, "before") {
 					// history of length 2 on one request wrapper: a conversion while the URL carried OTHER query values
 					// (outcome ignored), then the query of this scenario is put in place and the judged conversion runs
 					good := req.Request.URL.RawQuery
